@@ -275,6 +275,51 @@ def h_unsign(valid: bool, use_b: bool) -> bool:
     return True
 
 
+import contextlib as _ctxlib
+_nullctx = _ctxlib.nullcontext
+
+
+def h_unsign_twice(first_valid: bool, same_msg: bool, same_sig: bool) -> bool:
+    """
+    post: _ == True
+    """
+    # two calls in ONE process: the verdict for the second tuple must depend on its own (message, key, signature)
+    # only -- nothing learned while checking the first (a cache of verified keys/signatures) may vouch for it.
+    # The ideal signature scheme accepts exactly one triple: (msg1, KEY_A, sig1) when first_valid, none otherwise.
+    msg1, msg2 = _msg(1, 1), (_msg(1, 1) if same_msg else _msg(1, 2))
+    sig1, sig2 = b"S" * 64, (b"S" * 64 if same_sig else b"T" * 64)
+    raw_key = b"A" * 32
+    ideal = _IdealEd25519(lambda m, k, sg: first_valid and m == msg1 and k == raw_key and sg == sig1)
+    # a FRESH copy of the module for every path: module-level state (e.g. a cache of verified signatures) must not leak
+    # from one explored path into the next, or the engine's counterexample would not replay in a fresh process
+    import importlib.util
+    with hlib.untraced() if hasattr(hlib, "untraced") else _nullctx():
+        spec = importlib.util.spec_from_file_location("allmydata.introducer._common_fresh_copy", common_mod.__file__)
+        fresh = importlib.util.module_from_spec(spec)
+        spec.loader.exec_module(fresh)
+    fresh.ed25519 = ideal
+    fresh.json = common_mod.json
+    outs = []
+    for (m, sg) in ((msg1, sig1), (msg2, sig2)):
+        try:
+            outs.append(("ok", fresh.unsign_from_foolscap((m, b"v0-" + base32.b2a(sg), KEY_A))))
+        except BadSignature:
+            outs.append(("bad", None))
+    want1 = first_valid
+    want2 = first_valid and same_msg and same_sig
+    for (i, (got, want, m)) in enumerate(((outs[0], want1, msg1), (outs[1], want2, msg2))):
+        if want:
+            if got[0] != "ok":
+                return "valid announcement rejected (call %d)" % (i + 1)
+            (ann, key_s) = got[1]
+            if key_s != KEY_A or ann != _json.loads(m.decode("utf-8")):
+                return "returned body/key is not the signed message's (call %d)" % (i + 1)
+        elif got[0] == "ok":
+            return "call %d returned a message whose own (message, key, signature) does not verify%s" % (
+                i + 1, " -- after an earlier successful verification with the same key" if i == 1 and first_valid else "")
+    return True
+
+
 # ---- batches --------------------------------------------------------------------------------------------
 
 EXCLUDED = []
